@@ -517,5 +517,88 @@ pub fn byte(
     Ok(windows)
 }
 //@end
+
+#[verifier::external_body]
+fn vt_str_is_empty(s: &str) -> (r: bool) ensures r == (str_bytes(s).len() == 0) { s.is_empty() }
+
+//@unit src/windows.rs enum WindowConfig
+//@rule derive_only(Debug)
+#[derive(Debug)]
+pub enum WindowConfig {
+    Character(usize, usize, bool),
+    Bytes(usize, usize, bool),
+    Full(bool),
+}
+//@end
+
+/// the dispatcher: an empty text gives one empty window; otherwise the configured windowing (Full = one window)
+pub closed spec fn full_ok(ws: Seq<Window>, s: &str) -> bool {
+    exists|cs: CharString| #[trigger] cs.wf() && cs.text() == s && ws.len() == 1 && tiles(ws, cs.n())
+        && ws[0].ctx_start == 0 && ws[0].ctx_end == cs.n() && ws[0].byte_ctx_start == 0 && ws[0].byte_ctx_end == str_bytes(s).len()
+        && ws[0].byte_window_start == 0 && ws[0].byte_window_end == str_bytes(s).len() && ws[0].str == s
+}
+
+//@unit src/windows.rs fn windows
+//@rule R4
+//@rule R11_str(s)
+pub fn windows<'a>(s: &'a str, config: &WindowConfig) -> (res: VtResult<Vec<Window<'a>>>)
+    requires
+        // domain restrictions of char() / byte()
+        (match *config {
+            WindowConfig::Character(m, c, _) => 2 * c <= usize::MAX && str_bytes(s).len() + m <= usize::MAX,
+            WindowConfig::Bytes(m, c, _) => 2 * c <= usize::MAX && str_bytes(s).len() + m <= usize::MAX,
+            WindowConfig::Full(_) => true,
+        }),
+    ensures
+        str_bytes(s).len() > 0 && res.is_ok() ==> (match *config {
+            WindowConfig::Character(m, c, _) => all_ok_any(res.unwrap()@, s, m as int),
+            WindowConfig::Bytes(m, c, _) => ball_ok_any(res.unwrap()@, s, m as int),
+            WindowConfig::Full(_) => full_ok(res.unwrap()@, s),
+        }),
+        // an impossible configuration is an error
+        str_bytes(s).len() > 0 ==> (match *config {
+            WindowConfig::Character(m, c, _) => res.is_err() <==> m <= 2 * c,
+            WindowConfig::Bytes(m, c, _) => m <= 2 * c ==> res.is_err(),
+            WindowConfig::Full(_) => res.is_ok(),
+        }),
+{
+    if vt_str_is_empty(s) {
+        return Ok(vec![Window {
+            ctx_start: 0,
+            window_start: 0,
+            window_end: 0,
+            ctx_end: 0,
+            byte_ctx_start: 0,
+            byte_window_start: 0,
+            byte_window_end: 0,
+            byte_ctx_end: 0,
+            str: s,
+        }]);
+    }
+    match *config {
+        WindowConfig::Character(max_chars, context_chars, use_graphemes) => {
+            char(s, max_chars, context_chars, use_graphemes)
+        }
+        WindowConfig::Bytes(max_bytes, context_bytes, use_graphemes) => {
+            byte(s, max_bytes, context_bytes, use_graphemes)
+        }
+        WindowConfig::Full(use_graphemes) => {
+            let cs = CS::new(s, use_graphemes);
+            proof { lemma_pre_le_total(cs.rle(), cs.n()); lemma_count_le_bytes(cs.rle()); }
+            Ok(vec![Window {
+                ctx_start: 0,
+                window_start: 0,
+                window_end: cs.len(),
+                ctx_end: cs.len(),
+                byte_ctx_start: 0,
+                byte_window_start: 0,
+                byte_window_end: vt_str_len(s),
+                byte_ctx_end: vt_str_len(s),
+                str: s,
+            }])
+        }
+    }
+}
+//@end
 } // verus!
 fn main() {}
